@@ -143,8 +143,13 @@ Qed.
 (* ------------------------------------------------------------------------------------------ *)
 (* protocol: step lemmas for the frames the honest peers write                                 *)
 (* ------------------------------------------------------------------------------------------ *)
+(* the two ends' generations: each at least ours and a byte; at least one end is this code base (two NEWER
+   peers would settle on a version this model does not contain) *)
+Definition gens_ok (cfg : config) : Prop :=
+  c_maxSupportProtoVersion <= cgen cfg < 256 /\ c_maxSupportProtoVersion <= sgen cfg < 256 /\
+  (cgen cfg = c_maxSupportProtoVersion \/ sgen cfg = c_maxSupportProtoVersion).
 Definition good (cfg : config) : Prop :=
-  paths_ok (qpath cfg) (bpath cfg) /\ qpath cfg <> bpath cfg.
+  paths_ok (qpath cfg) (bpath cfg) /\ (qpath cfg <> bpath cfg /\ gens_ok cfg).
 
 Lemma read_hdr8 v t rest po : 0 <= v < 256 -> 0 <= t < 256 ->
   read_frame (hdr8 v t :: rest) po = RdHdr (mkhdr c_headerSize v t) (encode_header c_headerSize v t) rest.
@@ -174,13 +179,17 @@ Ltac consts := unfold c_maxSupportProtoVersion, c_protoVersion, c_typeExchangePr
   c_typeShareMemoryByFilePath, c_typeShareMemoryByMemfd, c_typeAckShareMemory, c_typeAckReadyRecvFD,
   c_minEventType, c_maxEventType, c_headerSize in *.
 
-Lemma cstep_waitver cfg ver rest po : mt cfg = MMemfd ->
-  cstep cfg CWaitVer ver (hdr8 c_maxSupportProtoVersion c_typeExchangeProtoVersion :: rest) po =
-  Some (cwrite po 3 rest [FBytes (encode_header c_headerSize c_maxSupportProtoVersion c_typeExchangeProtoVersion)]
+Lemma min_gens cfg : gens_ok cfg -> Z.min (cgen cfg) (sgen cfg) = 3.
+Proof. unfold gens_ok, c_maxSupportProtoVersion. intros (A & B & [C|C]); lia. Qed.
+
+Lemma cstep_waitver cfg ver rest po : mt cfg = MMemfd -> gens_ok cfg ->
+  cstep cfg CWaitVer ver (hdr8 (sgen cfg) c_typeExchangeProtoVersion :: rest) po =
+  Some (cwrite po 3 rest [FBytes (encode_header c_headerSize (sgen cfg) c_typeExchangeProtoVersion)]
           [FBytes (generate 3 c_typeShareMemoryByMemfd (qpath cfg) (bpath cfg))] CWaitAckReady).
 Proof.
-  intros Hm. unfold cstep. rewrite read_hdr8 by (consts; lia). rewrite expect_ok by (consts; lia).
-  cbn [h_ver mkhdr]. rewrite Hm. reflexivity.
+  intros Hm G. pose proof (min_gens cfg G) as Hmin. destruct G as (A & B & _). unfold c_maxSupportProtoVersion in *.
+  unfold cstep. rewrite read_hdr8 by (consts; lia). rewrite expect_ok by (consts; lia).
+  cbn [h_ver mkhdr]. rewrite Hmin. rewrite Hm. reflexivity.
 Qed.
 Lemma cstep_waitackready cfg rest po :
   cstep cfg CWaitAckReady 3 (hdr8 3 c_typeAckReadyRecvFD :: rest) po =
@@ -233,24 +242,31 @@ Lemma handle_file_generate_v2 f ver v t q b rest po : paths_ok q b ->
   end.
 Proof. intros Hp. rewrite handle_file_generate by assumption. reflexivity. Qed.
 
-Lemma sstep_first_file f ver q b rest po : paths_ok q b ->
-  sstep f SWaitFirst ver (FBytes (generate c_protoVersion c_typeShareMemoryByFilePath q b) :: rest) po =
+Lemma sstep_first_file g f ver q b rest po : paths_ok q b ->
+  sstep g f SWaitFirst ver (FBytes (generate c_protoVersion c_typeShareMemoryByFilePath q b) :: rest) po =
   handle_file f 2 (mkhdr (c_headerSize + 2 + zlen q + 2 + zlen b) c_protoVersion c_typeShareMemoryByFilePath)
               (generate c_protoVersion c_typeShareMemoryByFilePath q b) rest po [].
 Proof.
   intros Hp. unfold sstep. rewrite read_generate by (try assumption; consts; lia).
   rewrite check_valid_ok by (consts; lia). reflexivity.
 Qed.
-Lemma sstep_first_exch f ver rest po :
-  sstep f SWaitFirst ver (hdr8 c_maxSupportProtoVersion c_typeExchangeProtoVersion :: rest) po =
+Lemma sstep_first_exch cfg f ver rest po : gens_ok cfg ->
+  sstep (sgen cfg) f SWaitFirst ver (hdr8 (cgen cfg) c_typeExchangeProtoVersion :: rest) po =
   if po
   then Some {| so_pc := SWaitMeta; so_ver := 3; so_mapq := None; so_mapb := None; so_inbox := rest;
-               so_cons := [FBytes (encode_header c_headerSize c_maxSupportProtoVersion c_typeExchangeProtoVersion)];
-               so_write := [hdr8 c_maxSupportProtoVersion c_typeExchangeProtoVersion] |}
-  else Some (sfail 3 None rest [FBytes (encode_header c_headerSize c_maxSupportProtoVersion c_typeExchangeProtoVersion)] (RErr EPipe)).
-Proof. unfold sstep. rewrite read_hdr8 by (consts; lia). rewrite check_valid_ok by (consts; lia). reflexivity. Qed.
-Lemma sstep_meta_memfd f q b rest po : paths_ok q b ->
-  sstep f SWaitMeta 3 (FBytes (generate 3 c_typeShareMemoryByMemfd q b) :: rest) po =
+               so_cons := [FBytes (encode_header c_headerSize (cgen cfg) c_typeExchangeProtoVersion)];
+               so_write := [hdr8 (sgen cfg) c_typeExchangeProtoVersion] |}
+  else Some (sfail 3 None rest [FBytes (encode_header c_headerSize (cgen cfg) c_typeExchangeProtoVersion)] (RErr EPipe)).
+Proof.
+  intros G. pose proof (min_gens cfg G) as Hmin. destruct G as (A & B & _). unfold c_maxSupportProtoVersion in *.
+  unfold sstep. rewrite read_hdr8 by (consts; lia). rewrite check_valid_ok by (consts; lia).
+  cbn [h_ver h_type mkhdr].
+  destruct (cgen cfg =? c_initializerVersion_2) eqn:E2; [apply Z.eqb_eq in E2; unfold c_initializerVersion_2 in E2; lia|].
+  rewrite Hmin. change (c_initializerVersion_3 <=? 3) with true. cbv iota.
+  rewrite Z.eqb_refl. reflexivity.
+Qed.
+Lemma sstep_meta_memfd g f q b rest po : paths_ok q b ->
+  sstep g f SWaitMeta 3 (FBytes (generate 3 c_typeShareMemoryByMemfd q b) :: rest) po =
   if po
   then Some {| so_pc := SWaitFds b q; so_ver := 3; so_mapq := None; so_mapb := None; so_inbox := rest;
                so_cons := [FBytes (generate 3 c_typeShareMemoryByMemfd q b)];
@@ -387,16 +403,16 @@ Lemma lookup_init_q cfg : mt cfg = MFile -> lookup (qpath cfg) (fs (init cfg)) =
 Proof. intros H. unfold init. cbn. rewrite H. cbn. rewrite bytes_eqb_refl. reflexivity. Qed.
 Lemma lookup_init_b cfg : good cfg -> mt cfg = MFile -> lookup (bpath cfg) (fs (init cfg)) = Some (bobj cfg).
 Proof.
-  intros [_ Hne] H. unfold init. cbn. rewrite H. cbn.
+  intros [_ [Hne _]] H. unfold init. cbn. rewrite H. cbn.
   destruct (bytes_eqb (bpath cfg) (qpath cfg)) eqn:E.
   - apply bytes_eqb_eq in E. congruence.
   - rewrite bytes_eqb_refl. reflexivity.
 Qed.
 
-Lemma negotiated_file cfg : mt cfg = MFile -> negotiated cfg = 2.
-Proof. intros H. unfold negotiated, client_version. rewrite H. reflexivity. Qed.
-Lemma negotiated_memfd cfg : mt cfg = MMemfd -> negotiated cfg = 3.
-Proof. intros H. unfold negotiated, client_version. rewrite H. reflexivity. Qed.
+Lemma negotiated_file cfg : gens_ok cfg -> mt cfg = MFile -> negotiated cfg = 2.
+Proof. intros (A & B & _) H. unfold negotiated, client_version. rewrite H. unfold c_protoVersion, c_maxSupportProtoVersion in *. lia. Qed.
+Lemma negotiated_memfd cfg : gens_ok cfg -> mt cfg = MMemfd -> negotiated cfg = 3.
+Proof. intros G H. unfold negotiated, client_version. rewrite H. apply min_gens. assumption. Qed.
 
 Ltac wproj := cbn [wc ws c2s s2c fs c_out c_cons s_out s_cons cpc cver cmapq cmapb cdup cret copen cstall ctimed stimed
                    spc sver smapq smapb sdup sret sopen sstall
@@ -441,7 +457,7 @@ Qed.
 
 Lemma inv_LC cfg w : good cfg -> Inv cfg w -> Inv cfg (step cfg w LC).
 Proof.
-  intros [Hp Hne] I. unfold step. destruct (c_running (wc w)); [|assumption].
+  intros [Hp [Hne Hg]] I. unfold step. destruct (c_running (wc w)); [|assumption].
   pose proof (i_c _ _ I) as Hc. pose proof (i_w3 _ _ I) as H3. pose proof (i_w4 _ _ I) as H4.
   pose proof (i_w1 _ _ I) as H1.
   unfold cinv in Hc.
@@ -542,7 +558,7 @@ Ltac sfold w :=
 
 Lemma inv_LS cfg w : good cfg -> Inv cfg w -> Inv cfg (step cfg w LS).
 Proof.
-  intros [Hp Hne] I. unfold step. destruct (s_running (ws w)); [|assumption].
+  intros [Hp [Hne Hg]] I. unfold step. destruct (s_running (ws w)); [|assumption].
   pose proof (i_s _ _ I) as Hs. pose proof (i_w1 _ _ I) as H1. pose proof (i_w2 _ _ I) as H2.
   pose proof (i_w3 _ _ I) as H3. pose proof (i_fs _ _ I) as Hfs.
   unfold sinv in Hs. fold (s_apply w).
@@ -569,9 +585,10 @@ Proof.
         -- unfold sinv, s_apply. wproj. rewrite negotiated_file by assumption.
            split; [reflexivity|]. split; [congruence|]. intros _ _.
            apply Hfs in Lq. apply Hfs in Lb. rewrite lookup_init_q in Lq by assumption.
-           rewrite lookup_init_b in Lb by (try assumption; split; assumption).
+           assert (Gd : good cfg) by (split; [assumption|split; assumption]).
+           rewrite lookup_init_b in Lb by assumption.
            injection Lq as <-. injection Lb as <-. split; reflexivity.
-      * rewrite sstep_first_exch. destruct (copen (wc w) && negb (stimed (ws w))).
+      * rewrite sstep_first_exch by assumption. destruct (copen (wc w) && negb (stimed (ws w))).
         -- sfold w.
            apply s_apply_inv; wproj; auto.
            ++ rewrite Hout. cbn [app]. unfold sscript. rewrite Hm. eexists. reflexivity.
@@ -767,7 +784,7 @@ Proof.
   - destruct (c_running (wc w)); [|assumption].
     destruct (cstep cfg (cpc (wc w)) (cver (wc w)) (s2c w) (sopen (ws w) && negb (ctimed (wc w)))); assumption.
   - destruct (s_running (ws w)); [|assumption].
-    destruct (sstep (fs w) (spc (ws w)) (sver (ws w)) (c2s w) (copen (wc w) && negb (stimed (ws w)))); assumption.
+    destruct (sstep (sgen cfg) (fs w) (spc (ws w)) (sver (ws w)) (c2s w) (copen (wc w) && negb (stimed (ws w)))); assumption.
   - destruct (c_running (wc w)); [|assumption]. destruct (cpc (wc w)); try assumption. rewrite H. assumption.
   - destruct (s_running (ws w)); [|assumption]. destruct (spc (ws w)); try assumption.
     destruct (sret (ws w)); [assumption|]. rewrite wc_s_return. assumption.
@@ -787,7 +804,7 @@ Proof.
   - destruct (c_running (wc w)); [|assumption].
     destruct (cstep cfg (cpc (wc w)) (cver (wc w)) (s2c w) (sopen (ws w) && negb (ctimed (wc w)))); assumption.
   - destruct (s_running (ws w)); [|assumption].
-    destruct (sstep (fs w) (spc (ws w)) (sver (ws w)) (c2s w) (copen (wc w) && negb (stimed (ws w)))); assumption.
+    destruct (sstep (sgen cfg) (fs w) (spc (ws w)) (sver (ws w)) (c2s w) (copen (wc w) && negb (stimed (ws w)))); assumption.
   - destruct (c_running (wc w)); [|assumption]. destruct (cpc (wc w)); try assumption.
     destruct (cret (wc w)); [assumption|]. rewrite ws_c_return. assumption.
   - destruct (s_running (ws w)); [|assumption]. destruct (spc (ws w)); try assumption. rewrite H. assumption.
@@ -823,8 +840,8 @@ Proof.
   intros H. destruct pc; try contradiction; unfold cstep, read_frame, cwrite, cfail;
     repeat (first [progress cbv iota | dm]); do 2 eexists; split; reflexivity.
 Qed.
-Lemma sstep_cancelled f pc ver inbox : not_done pc ->
-  exists o r, sstep f pc ver inbox false = Some o /\ so_pc o = SDone r.
+Lemma sstep_cancelled g f pc ver inbox : not_done pc ->
+  exists o r, sstep g f pc ver inbox false = Some o /\ so_pc o = SDone r.
 Proof.
   intros H. destruct pc; try contradiction; unfold sstep, handle_file, read_frame, sfail;
     repeat (first [progress cbv iota | dm]); do 2 eexists; split; reflexivity.
@@ -842,7 +859,7 @@ Lemma LS_cancelled cfg w : s_running (ws w) = true -> stimed (ws w) = true -> no
   exists o r, step cfg w LS = s_apply w o /\ so_pc o = SDone r.
 Proof.
   intros Hr Ht Hp. unfold step. rewrite Hr, Ht. cbn [negb]. rewrite andb_false_r.
-  destruct (sstep_cancelled (fs w) (spc (ws w)) (sver (ws w)) (c2s w) Hp) as (o & r & -> & Ho).
+  destruct (sstep_cancelled (sgen cfg) (fs w) (spc (ws w)) (sver (ws w)) (c2s w) Hp) as (o & r & -> & Ho).
   exists o, r. split; [unfold s_apply; rewrite Ht; reflexivity|assumption].
 Qed.
 Lemma LRetC_done cfg w r : c_running (wc w) = true -> cret (wc w) = None -> cpc (wc w) = CDone r ->
@@ -930,7 +947,7 @@ Proof.
   - destruct (c_running (wc w)); [|assumption].
     destruct (cstep cfg (cpc (wc w)) (cver (wc w)) (s2c w) (sopen (ws w) && negb (ctimed (wc w)))); assumption.
   - destruct (s_running (ws w)); [|assumption].
-    destruct (sstep (fs w) (spc (ws w)) (sver (ws w)) (c2s w) (copen (wc w) && negb (stimed (ws w)))); assumption.
+    destruct (sstep (sgen cfg) (fs w) (spc (ws w)) (sver (ws w)) (c2s w) (copen (wc w) && negb (stimed (ws w)))); assumption.
   - destruct (c_running (wc w)); [|assumption]. destruct (cpc (wc w)); try assumption.
     destruct (cret (wc w)); [assumption|]. apply fs_c_return. assumption.
   - destruct (s_running (ws w)); [|assumption]. destruct (spc (ws w)); try assumption.
@@ -976,7 +993,7 @@ Proof.
         try (destruct (s_running (ws w)) eqn:Rs; [|congruence]);
         try congruence.
       * destruct (cstep cfg (cpc (wc w)) (cver (wc w)) (s2c w) (sopen (ws w) && negb (ctimed (wc w)))); wproj; congruence.
-      * destruct (sstep (fs w) (spc (ws w)) (sver (ws w)) (c2s w) (copen (wc w) && negb (stimed (ws w)))); wproj; congruence.
+      * destruct (sstep (sgen cfg) (fs w) (spc (ws w)) (sver (ws w)) (c2s w) (copen (wc w) && negb (stimed (ws w)))); wproj; congruence.
       * destruct (cpc (wc w)) as [| | | |r] eqn:Epc; try congruence. rewrite E in *.
         apply c_return_err_no_files; auto. destruct (ctimed (wc w)); [discriminate|].
         intros ->. unfold c_return, set_c in H. wproj. discriminate.
@@ -1023,12 +1040,20 @@ Proof.
   unfold zlen. rewrite repeat_length. apply Z2Nat.id. lia.
 Qed.
 
-Definition wit_file : config := {| mt := MFile; unix := true; qpath := [47; 113]; bpath := [47; 98]; qobj := 11; bobj := 22 |}.
-Definition wit_memfd : config := {| mt := MMemfd; unix := true; qpath := [47; 113]; bpath := [47; 98]; qobj := 11; bobj := 22 |}.
-Lemma wit_file_good : good wit_file.
-Proof. split; [split; vm_compute; reflexivity|discriminate]. Qed.
-Lemma wit_memfd_good : good wit_memfd.
-Proof. split; [split; vm_compute; reflexivity|discriminate]. Qed.
+Definition wit_file : config := {| mt := MFile; unix := true; qpath := [47; 113]; bpath := [47; 98]; qobj := 11; bobj := 22;
+                                   cgen := c_maxSupportProtoVersion; sgen := c_maxSupportProtoVersion |}.
+Definition wit_memfd : config := {| mt := MMemfd; unix := true; qpath := [47; 113]; bpath := [47; 98]; qobj := 11; bobj := 22;
+                                    cgen := c_maxSupportProtoVersion; sgen := c_maxSupportProtoVersion |}.
+(* a server of a newer generation / a client of a newer generation *)
+Definition wit_newer_server : config := {| mt := MMemfd; unix := true; qpath := [47; 113]; bpath := [47; 98]; qobj := 11; bobj := 22;
+                                           cgen := c_maxSupportProtoVersion; sgen := 255 |}.
+Definition wit_newer_client : config := {| mt := MMemfd; unix := true; qpath := [47; 113]; bpath := [47; 98]; qobj := 11; bobj := 22;
+                                           cgen := 4; sgen := c_maxSupportProtoVersion |}.
+Ltac good_wit := split; [split; vm_compute; reflexivity|split; [discriminate|unfold gens_ok; cbn; unfold c_maxSupportProtoVersion; lia]].
+Lemma wit_file_good : good wit_file. Proof. good_wit. Qed.
+Lemma wit_memfd_good : good wit_memfd. Proof. good_wit. Qed.
+Lemma wit_newer_server_good : good wit_newer_server. Proof. good_wit. Qed.
+Lemma wit_newer_client_good : good wit_newer_client. Proof. good_wit. Qed.
 
 Definition both_ends_full : Prop :=
   forall cfg sch rc rs, good cfg ->
@@ -1055,3 +1080,33 @@ Lemma late_peer_state :
   let w := run wit_file late_peer_witness (init wit_file) in
   sret (ws w) = Some (RErr ETimeout) /\ s_mapped w = [] /\ sdup (ws w) = false /\ s_thread_alive w = false.
 Proof. vm_compute. repeat split. Qed.
+
+(* ---- the lower common version, whatever generation the peer advertises ---- *)
+(* this code base's client (generation 3) against a reply that advertises ANY version v >= 2 — an older
+   server (2), its own generation (3), a newer one (4, 5, ... 255): it goes on with min(3, v) and does
+   not fail; v = 1 has no initializer and is an error *)
+Lemma client_picks_min cfg ver rest v :
+  mt cfg = MMemfd -> cgen cfg = c_maxSupportProtoVersion -> 2 <= v < 256 ->
+  exists o, cstep cfg CWaitVer ver (hdr8 v c_typeExchangeProtoVersion :: rest) true = Some o /\
+            co_ver o = Z.min c_maxSupportProtoVersion v /\ (forall e, co_pc o <> CDone (RErr e)).
+Proof.
+  intros Hm Hc Hv. unfold cstep. rewrite read_hdr8 by (consts; lia). rewrite expect_ok by (consts; lia).
+  cbn [h_ver mkhdr]. rewrite Hc, Hm. unfold c_maxSupportProtoVersion, c_initializerVersion_2, c_initializerVersion_3.
+  destruct (Z.min 3 v =? 2) eqn:E2.
+  - apply Z.eqb_eq in E2. eexists. split; [reflexivity|]. cbn. split; [lia|discriminate].
+  - apply Z.eqb_neq in E2. assert (E3 : Z.min 3 v = 3) by lia. rewrite E3. cbn.
+    eexists. split; [reflexivity|]. cbn. split; [reflexivity|discriminate].
+Qed.
+(* this code base's server (generation 3) against a first event that advertises ANY version v >= 3 *)
+Lemma server_picks_min f ver rest v :
+  c_maxSupportProtoVersion <= v < 256 ->
+  exists o, sstep c_maxSupportProtoVersion f SWaitFirst ver (hdr8 v c_typeExchangeProtoVersion :: rest) true = Some o /\
+            so_ver o = c_maxSupportProtoVersion /\ so_pc o = SWaitMeta /\
+            so_write o = [hdr8 c_maxSupportProtoVersion c_typeExchangeProtoVersion].
+Proof.
+  intros Hv. unfold c_maxSupportProtoVersion in *. unfold sstep. rewrite read_hdr8 by (consts; lia).
+  rewrite check_valid_ok by (consts; lia). cbn [h_ver h_type mkhdr].
+  destruct (v =? c_initializerVersion_2) eqn:E2; [apply Z.eqb_eq in E2; unfold c_initializerVersion_2 in E2; lia|].
+  assert (E3 : Z.min v 3 = 3) by lia. rewrite E3. change (c_initializerVersion_3 <=? 3) with true. cbv iota.
+  rewrite Z.eqb_refl. eexists. split; [reflexivity|]. cbn. auto.
+Qed.
